@@ -100,6 +100,8 @@ for rel in ['runner/props.py', 'runner/manifest_data.py']:
     cur = open(f'{V}/{rel}').read()
     for op, old, new in added_lines(rel):
         blk = '\n'.join(new)
+        if rel.endswith('manifest_data.py'):
+            blk = re.sub(r"(?m)^    '(C\d\d)': \{\n((?:        .*\n)+)    \},?$", lambda m: "CLAIMS['%s'] = {\n%s}" % (m.group(1), re.sub(r'(?m)^    ', '', m.group(2))), blk + '\n')
         if blk.strip() and blk.strip() not in cur:
             cur = cur.rstrip('\n') + '\n\n' + blk.strip('\n') + '\n'
         if op != 'insert':
